@@ -64,9 +64,11 @@ def pixel_grid(n, crpix, seed):
 
 def kf_d26(part, case):
     """known finding D26: distortion present, find=True, target latitude exactly +-90 degrees"""
-    if part != "inverse-find":
+    if part not in ("inverse-find", "inverse-find-array"):
         return False
     (proj, crval, cd, crpix), pt = case
+    if len(pt) != 2 or not all(isinstance(v, float) for v in pt):
+        return False        # (header, order) cases of the array part: elements off the pole, never the known finding
     h = W.make_header(proj, crval, cd[0], cd[1], cd[2], crpix)
     if not W.has_distortion(h):
         return False
@@ -271,10 +273,18 @@ def main(ctx):
         except Exception as e:
             return rec.fail(case, "sky2image(array) raised %s: %s" % (type(e).__name__, e))
         e = np.maximum(np.abs(np.asarray(xb) - X), np.abs(np.asarray(yb) - Y))
-        if not np.all(np.isfinite(e)) or e.max() > 1e-6:
-            j = int(np.nanargmax(np.where(np.isfinite(e), e, np.inf)))
+        e = np.where(np.isfinite(e), e, np.inf)
+        # elements whose target latitude is exactly +-90 on a distorted header are the known finding D26: they are
+        # reported under their own (header, pixel) case so that the input predicate applies to them only
+        pole = (np.abs(np.asarray(dd, dtype="f8")) == 90.0) & W.has_distortion(h)
+        for j in np.nonzero(pole & (e > 1e-6))[0]:
+            rec.fail((hd, (float(X[j]), float(Y[j]))), "sky2image(find=True) on an array: the element at the pole misses its "
+                                                       "pixel by %.3g px" % e[j])
+        bad = np.nonzero(~pole & (e > 1e-6))[0]
+        if bad.size:
+            j = int(bad[np.argmax(e[bad])])
             return rec.fail(case, "sky2image(find=True) on an array: element %d misses its pixel by %.3g px (> 1e-6): got (%r,%r) "
-                                  "for (%r,%r)" % (j, e[j], float(np.asarray(xb)[j]), float(np.asarray(yb)[j]), X[j], Y[j]))
+                                  "for (%r,%r)" % (j, e[j], float(np.asarray(xb)[j]), float(np.asarray(yb)[j]), float(X[j]), float(Y[j])))
         rec.ok(case, outcome="find-array:%s/len%d" % (hd[0], len(order)), nontrivial=True, calls=1)
 
     asel = sel
